@@ -323,3 +323,5 @@ Definition into_then_expr (stmts : list (stmt * loc)) : option expr :=
 
 (* `Expr::Error.into_id_without_span()` and `Expr::Error.into_id(loc)` *)
 Definition error_without_span : expr := Ex NError loc_default.
+(* `Expr::Block(None).into_id_without_span()`: the unit value of an empty function body *)
+Definition unit_without_span : expr := Ex (NBlock None) loc_default.
